@@ -35,6 +35,7 @@ type replay struct {
 
 func main() {
 	o := vh.ParseFlags()
+	chain.Supervise(o, "harness supervisor")
 	res := vh.NewResult("one evaluation = one read of the real Center compared with the oracle; a case = one history (3-30 blocks, random merge/remove/clean points) with every read kind after every step; non-trivial = history with at least one merge and one suffrage change")
 	cases := &vh.Cases{Import: "From MV Require Import C19.Model.", Type: "case", CheckFn: "check", Shard: 25}
 	t0 := time.Now()
